@@ -109,6 +109,53 @@ def ts_oracle(chk, us, offset_min):
         chk.fail("timestamp-json-parse-raises", inp, "%s: %r" % (js, e))
 
 
+def dst_fold_stage(chk):
+    """'aware datetimes in any time zone denote the same instant': real DST zones, and in particular BOTH readings
+    (fold=0 / fold=1) of the wall-clock times of a repeated hour — equal and equally hashed as datetime objects,
+    yet different instants — serialised one after the other in the same process"""
+    try:
+        from zoneinfo import ZoneInfo
+        zones = [ZoneInfo(z) for z in ("America/New_York", "Europe/Berlin", "Australia/Lord_Howe", "America/St_Johns")]
+    except Exception as e:           # no tz database in this environment: the stage does not apply
+        chk.notes.append("dst_fold_stage skipped: %r" % (e,))
+        return
+    from datetime import datetime
+    from google.protobuf import timestamp_pb2
+    C, R = classes()
+    for tz in zones:
+        for year in (1999, 2021, 2022):
+            for month in (3, 4, 10, 11):
+                for day in range(1, 32):
+                    for hour in (0, 1, 2, 3):
+                        for minute in (0, 30, 59):
+                            try:
+                                a = datetime(year, month, day, hour, minute, 15, 250000, tzinfo=tz)
+                            except ValueError:
+                                continue
+                            b2 = a.replace(fold=1)
+                            if a.utcoffset() == b2.utcoffset():
+                                continue                      # not in a repeated hour
+                            for dt in (a, b2, a):             # first pass, second pass, first pass again
+                                inp = {"kind": "timestamp", "zone": str(tz), "wall": dt.replace(tzinfo=None).isoformat(), "fold": dt.fold}
+                                chk.case("fold %s %s %d" % (tz, dt.replace(tzinfo=None).isoformat(), dt.fold), True, inp)
+                                chk.count("dst_fold_cases")
+                                want = timestamp_pb2.Timestamp()
+                                want.FromDatetime(dt.astimezone(timezone.utc).replace(tzinfo=None))
+                                try:
+                                    m = C(t=dt)
+                                    data = bytes(m)
+                                    r = R.FromString(data)
+                                    if (r.t.seconds, r.t.nanos) != (want.seconds, want.nanos):
+                                        chk.fail("timestamp-pair-differs-from-reference", inp, "%r vs %r" % ((r.t.seconds, r.t.nanos), (want.seconds, want.nanos)))
+                                    if len(m) != len(data):
+                                        chk.fail("timestamp-len-differs", inp, "%d vs %d" % (len(m), len(data)))
+                                    back = C().parse(data).t
+                                    if back.astimezone(timezone.utc) != dt.astimezone(timezone.utc):
+                                        chk.fail("timestamp-roundtrip", inp, repr(back))
+                                except Exception as e:
+                                    chk.fail("timestamp-encode-raises", inp, repr(e))
+
+
 def dur_oracle(chk, us):
     from google.protobuf import duration_pb2
     C, R = classes()
@@ -151,6 +198,7 @@ def run(chk, drv):
     rng = chk.rng
     chk.extra["rule"] = ("microsecond counts: every second boundary ±1 µs / ±1 ms around the epoch, year 1, year 9999, ±10000 years, 2^53 µs, random over the whole range and near zero "
                          "(thorough: all 10^6 fraction values, both signs); Timestamps under random fixed UTC offsets. non-trivial = non-zero value; distinct by (kind, value, offset)")
+    dst_fold_stage(chk)
     tvals, dvals = ts_values(chk), dur_values(chk)
     # ---- correspondence: the arithmetic of the four conversion functions + JSON fraction rules
     lines, wants = [], []
